@@ -3,6 +3,7 @@ package oracle
 import (
 	"sort"
 	"strings"
+	"time"
 
 	"verif/harness/model"
 )
@@ -108,6 +109,78 @@ func APIStatus(t *Truth) *Report {
 			}
 			if len(a) == len(b) && sureInh == possInh && ga.Status.State != wantState && gs == strings.Join(a, ",") && gotInh == sureInh {
 				rep.violate("api-status", "api-state-inconsistent-with-suppression", map[string]any{"at": fmtT(r, p.T), "alert": l.Key(), "state": ga.Status.State, "want": wantState})
+			}
+		}
+	}
+	return rep
+}
+
+// GroupMutedBy compares the mutedBy names that GET /alerts/groups reports for the alerts of a group
+// with the reference verdict of the route's mute/active intervals: when the reference has been muted
+// (with constant names) for longer than group_interval + slack the API must report exactly those
+// names; when it has been unmuted for that long the API must report none.
+func GroupMutedBy(t *Truth) *Report {
+	rep := newReport()
+	r := t.R
+	for _, p := range r.Probes {
+		ep := r.EpochAt(p.T)
+		if ep == nil {
+			continue
+		}
+		for _, g := range p.Groups {
+			// candidate nodes: same receiver, group labels of one of its alerts
+			if len(g.Alerts) == 0 {
+				continue
+			}
+			var nodes []*model.Node
+			for _, n := range ep.Root.Match(g.Alerts[0].Labels) {
+				if n.Receiver == g.Receiver.Name && n.GroupLabels(g.Alerts[0].Labels).Key() == g.Labels.Key() {
+					nodes = append(nodes, n)
+				}
+			}
+			if len(nodes) != 1 {
+				continue // ambiguous (two routes with the same receiver and group labels)
+			}
+			n := nodes[0]
+			if len(n.Mute) == 0 && len(n.Active) == 0 {
+				continue
+			}
+			window := n.GroupInterval + n.GroupWait + 2*time.Second
+			from := p.T.Add(-window)
+			if from.Before(ep.From) {
+				continue
+			}
+			constant := true
+			m0, names0 := TimeMuted(ep, n, from)
+			for x := from; !x.After(p.T); x = x.Add(time.Second) {
+				m, names := TimeMuted(ep, n, x)
+				if m != m0 || strings.Join(names, ",") != strings.Join(names0, ",") {
+					constant = false
+				}
+			}
+			if !constant {
+				continue
+			}
+			// all alerts of the group must have been in it for the whole window as well (a flush must have happened)
+			stable := true
+			for _, a := range g.Alerts {
+				if !r.Alerts.SurelyFiring(a.Labels.Key(), from) {
+					stable = false
+				}
+			}
+			if !stable {
+				continue
+			}
+			rep.Counters["groups_with_intervals_judged"]++
+			got := append([]string{}, g.Alerts[0].Status.MutedBy...)
+			sort.Strings(got)
+			want := append([]string{}, names0...)
+			sort.Strings(want)
+			if m0 {
+				rep.Counters["groups_muted"]++
+			}
+			if strings.Join(got, ",") != strings.Join(want, ",") {
+				rep.violate("group-muted-by", "api-mutedBy-differs-from-the-interval-verdict", map[string]any{"at": fmtT(r, p.T), "receiver": g.Receiver.Name, "group_labels": g.Labels.Key(), "route_path": n.Path, "api": got, "ref": want})
 			}
 		}
 	}
